@@ -20,6 +20,11 @@ def program_cases(tier, seed, pool):
     nonrel = [c for c in pool if c.core == 0 and c.mn not in ('rjmp', 'rcall', 'brbs', 'brbc') and not c.mn.startswith('br') or c.mn == 'break']
     for _ in range(n):
         lines, reqs, addr = [], [], 0
+        # a third of the programs do not start at 0: `.org N` (zero words before), so that an address taken
+        # from the wrong counter (`pc`, relative distances) shows
+        org = rng.choice([0, 0, 1, 16, rng.randrange(2, 300)])
+        if org:
+            lines.append('.org %s' % E.num(org)); addr = org
         for _ in range(rng.randrange(2, 40)):
             k = rng.random()
             if k < .25:
@@ -28,7 +33,9 @@ def program_cases(tier, seed, pool):
                 d = rng.choice([-lim, lim - 1, rng.randrange(-lim, lim), rng.randrange(-8, 8)])
                 t = addr + 1 + d
                 pre = ['v%d' % 3] if mn in ('brbs', 'brbc') else []
-                lines.append('%s %s%s' % (mn, '3, ' if pre else '', E.num(t)))
+                # the target as a number, or relative to the `pc` symbol (address of this instruction)
+                tgt = E.num(t) if rng.random() < .65 or t < 0 else rng.choice(['pc%+d' % (t - addr), 'PC %s %d' % ('+' if t >= addr else '-', abs(t - addr)), '%d + pc' % (t - addr) if t >= addr else 'pc - %d' % (addr - t)])
+                lines.append('%s %s%s' % (mn, '3, ' if pre else '', tgt))
                 reqs.append((mn, addr, pre + ['v%d' % t], 1))
                 addr += 1
             else:
@@ -37,7 +44,7 @@ def program_cases(tier, seed, pool):
                 w = 2 if c.mn in ('jmp', 'call', 'lds', 'sts') else 1
                 reqs.append((c.mn, addr, c.toks, w))
                 addr += w
-        progs.append(('\n'.join(lines), reqs))
+        progs.append(('\n'.join(lines), reqs, org))
     return progs
 
 def run_programs(progs, model_ok):
@@ -46,16 +53,16 @@ def run_programs(progs, model_ok):
     impl = vlib.run_impl(trip)
     model = vlib.run_model(trip, vlib.cwd_prelude()) if model_ok else {}
     lines = []
-    for i, (src, reqs) in enumerate(progs):
+    for i, (src, reqs, org) in enumerate(progs):
         for j, (mn, addr, toks, w) in enumerate(reqs):
             lines.append('%d.%d ENC 0 %s %d %s' % (i, j, mn, addr, ' '.join(toks)))
     spec, _, _ = vlib.run_lines(E.SPEC, lines, mode=None)
     dis, vio = [], []
-    for i, (src, reqs) in enumerate(progs):
+    for i, (src, reqs, org) in enumerate(progs):
         a = impl.get(str(i), 'MISSING')
         if model_ok and a != model.get(str(i), 'MISSING'):
             dis.append({'source': src, 'impl': a[:200], 'model': model.get(str(i), 'MISSING')[:200]})
-        exp = ''
+        exp = '0000' * org
         for j in range(len(reqs)):
             s = spec.get('%d.%d' % (i, j), 'NOSPEC')
             exp += E.expected_canon_code(s) if s.startswith('W') else '????'
